@@ -9,17 +9,17 @@ open Pr Doc PyStr
 
 namespace C01
 /-- key sorting only permutes the entries (nothing is lost or duplicated) -/
-theorem insert_perm (x : PairDocs) (xs : List PairDocs) : (insertPD x xs).Perm (x :: xs) := by
+theorem insertK_perm {α} (x : PyVal × α) (xs : List (PyVal × α)) : (insertK x xs).Perm (x :: xs) := by
   induction xs with
-  | nil => simp [insertPD]
+  | nil => simp [insertK]
   | cons y r ih =>
-    simp only [insertPD]; split
+    simp only [insertK]; split
     · exact List.Perm.refl _
     · exact (List.Perm.cons y ih).trans (List.Perm.swap x y r)
 
-theorem sorted_perm (xs : List PairDocs) : (sortPDs xs).Perm xs := by
-  unfold sortPDs
-  have key : ∀ (ys acc : List PairDocs), (ys.foldl (fun acc x => insertPD x acc) acc).Perm (ys ++ acc) := by
+theorem sortK_perm {α} (xs : List (PyVal × α)) : (sortK xs).Perm xs := by
+  unfold sortK
+  have key : ∀ (ys acc : List (PyVal × α)), (ys.foldl (fun acc x => insertK x acc) acc).Perm (ys ++ acc) := by
     intro ys
     induction ys with
     | nil => intro acc; simp
@@ -27,12 +27,16 @@ theorem sorted_perm (xs : List PairDocs) : (sortPDs xs).Perm xs := by
       intro acc
       simp only [List.foldl_cons]
       refine (ih _).trans ?_
-      have := insert_perm y acc
+      have := insertK_perm y acc
       refine (List.Perm.append_left r this).trans ?_
       simp
   have := key xs.reverse []
   rw [List.append_nil] at this
   exact this.trans (List.reverse_perm xs)
+
+theorem insert_perm (x : PairDocs) (xs : List PairDocs) : (insertPD x xs).Perm (x :: xs) := insertK_perm x xs
+
+theorem sorted_perm (xs : List PairDocs) : (sortPDs xs).Perm xs := sortK_perm xs
 
 /-- with `sort_dict_keys = False` the entries are printed in insertion order: `dictDoc` does not touch the order -/
 theorem insertion_order (ctx : Ctx) (h : ctx.sortKeys = false) (pds : List PairDocs) :
